@@ -186,10 +186,14 @@ type connectOpts struct {
 	Will       *rc.Packet // Topic, Payload, QoS, Retain used
 	User, Pass string
 	Policy     rawclient.AckPolicy
+	Level3     bool // MQTT 3.1 (protocol name MQIsdp, level 3), which the library accepts as well
 }
 
 func connectPacket(o connectOpts) *rc.Packet {
 	p := &rc.Packet{Type: rc.CONNECT, ProtoName: "MQTT", Level: 4, CleanSession: o.Clean, KeepAlive: o.KeepAlive, ClientID: []byte(o.ClientID)}
+	if o.Level3 {
+		p.ProtoName, p.Level = "MQIsdp", 3
+	}
 	if o.Will != nil {
 		p.HasWill, p.WillQoS, p.WillRetain, p.WillTopic, p.WillMsg = true, o.Will.QoS, o.Will.Retain, o.Will.Topic, o.Will.Payload
 	}
